@@ -207,6 +207,11 @@ func (d *Object) UnmarshalJSON(data []byte) error {
 	if d.payload == nil {
 		return ErrUnknownSchema
 	}
+	if _, ok := d.payload.(*Object); ok {
+		// the object type is registered like any other, but an object that
+		// names itself as its payload would be unmarshalled into itself forever
+		return ErrUnknownSchema
+	}
 	if p, found := internal.NullArrayElement(data); found {
 		return fmt.Errorf("null array element at %s", p)
 	}
